@@ -175,6 +175,10 @@ func cornerEvents(prop string) []string {
 		gw.EvC("PUBLISH(short a+)", gw.Publish(2, gw.ShortID("a+"), 1, 0, false, false, "x")),
 		gw.EvC("PUBLISH(short #x)", gw.Publish(2, gw.ShortID("#x"), 1, 0, false, false, "x")),
 		gw.EvC("PUBLISH(q-1,short +/)", gw.Publish(2, gw.ShortID("+/"), 0, 3, false, false, "x")),
+		// QoS -1 (flag bits 0b11) is legal for a connected client too: it must reach the broker as QoS 0, never as 3
+		gw.EvC("PUBLISH(q-1,short xy)", gw.Publish(2, gw.ShortID("xy"), 0, 3, false, false, "x")),
+		gw.EvC("PUBLISH(q-1,predef 1)", gw.Publish(1, 1, 0, 3, false, false, "x")),
+		gw.EvC("PUBLISH(q-1,registered 2)", gw.Publish(0, 2, 0, 3, false, false, "x")),
 		gw.EvC("SUBSCRIBE(a/b,q3)", gw.SubscribeName(2, "a/b", 3, false)),
 		gw.EvC("SUBSCRIBE(a/b,mid 0)", gw.SubscribeName(0, "a/b", 1, false)),
 		gw.EvC("SUBSCRIBE(a/#/b malformed filter)", gw.SubscribeName(3, "a/#/b", 1, false)),
